@@ -53,6 +53,9 @@ CACHE_ATTRS = {"_mean", "_covariance", "_noise_variance", "_noise_variance_cov",
                "_index", "_fdata"}
 FROZEN_ATTRS = {"_argvals", "_argvals_stand", "argvals", "argvals_stand", "basis", "_basis"}
 SENTINELS = (1e300, -7.25)
+ON_RESULT_B = {"center()", "normalize()", "standardize()", "rescale()", "smooth()", "concatenate(self,other)", "self+other",
+               "to_basis()", "to_grid()", "mean()", "covariance()"}
+FROZEN_TYPES = {"DenseArgvals", "IrregularArgvals", "Basis", "MultivariateBasis"}
 
 
 # ==================================================================================
@@ -133,6 +136,8 @@ def snapshot(roots, reg, frozen_roots=False):
                 return f"@{loc}"
         except ImportError:  # pragma: no cover
             pass
+        if is_fd_object(x) and type(x).__name__ in FROZEN_TYPES:
+            frozen = True         # sampling points and bases: shared by design, never written
         loc = reg.loc(x)
         if loc in out:
             out[loc].frozen = out[loc].frozen and frozen
@@ -231,7 +236,6 @@ def result_bytes(x):
 def poison(nbytes_list, sentinel):
     """allocate / fill / free float buffers of the given sizes so that the next uninitialised
     allocation of such a size is likely to contain `sentinel`."""
-    gc.collect()
     for _ in range(2):
         blocks = []
         for nb in nbytes_list:
@@ -313,7 +317,7 @@ def observe(ctx, label, fn, inputs, prev_results=(), info=None, probe=True):
         if loc not in s_in:
             problems.append(("write-earlier-result", f"{label}: modified an earlier result at {path}"))
     # ---- result footprint, aliasing
-    roots, fresh, shared_frozen, alias_locs = [], [], 0, []
+    roots, fresh, shared_frozen, alias_locs, extra_roots = [], [], 0, [], []
     if status == "ok" and result is not None:
         s_res = snapshot([("result", result)], reg)
         roots = sorted(s_res)
@@ -336,6 +340,7 @@ def observe(ctx, label, fn, inputs, prev_results=(), info=None, probe=True):
                 if np.asarray(nr.ref).dtype != object and np.asarray(ni.ref).dtype != object and \
                         np.shares_memory(np.asarray(nr.ref), np.asarray(ni.ref)):
                     alias_locs.append(li)
+                    extra_roots.append(li)
                     problems.append(("alias-input", f"{label}: result array {nr.path} overlaps input array {ni.path}"))
         # probe mutation: write into the result's own arrays, the inputs must not move
         if probe and not alias_locs:
@@ -351,9 +356,808 @@ def observe(ctx, label, fn, inputs, prev_results=(), info=None, probe=True):
                 for a, c in saved:
                     a[...] = c
                 for loc, path, kind in moved:
+                    extra_roots.append(loc)
                     problems.append(("alias-input", f"{label}: writing into the result changes the input at {path}"))
     rec = {"label": label, "args": sorted(s_in), "frozen": sorted(l for l, n in s_in.items() if n.frozen),
-           "writes": sorted({l for l, _, _ in w_in} | {l for l, _, _ in w_prev}), "fresh": fresh, "roots": roots,
+           "writes": sorted({l for l, _, _ in w_in} | {l for l, _, _ in w_prev}), "fresh": fresh,
+           "roots": sorted(set(roots) | set(extra_roots)), "shared_frozen": shared_frozen,
            "next": watermark, "prev": sorted(s_prev), "status": status}
     ctx.records.append(rec)
     return status, result, problems, rec
+
+
+# ==================================================================================
+# garbage oracle: np.empty-like allocations hold the sentinel
+# ==================================================================================
+class _UfuncProxy:
+    """`np.<ufunc>` with the model's [garbage]: cells of a fresh output that the `where=` mask
+    leaves unwritten hold the sentinel (instead of whatever the allocator recycled)."""
+
+    def __init__(self, uf, sentinel):
+        self._uf, self._s = uf, sentinel
+
+    def __getattr__(self, k):
+        return getattr(self._uf, k)
+
+    def __call__(self, *args, **kw):
+        r = self._uf(*args, **kw)
+        wh = kw.get("where", True)
+        if wh is not True and kw.get("out", None) is None and isinstance(r, np.ndarray) and r.dtype.kind == "f":
+            r[~np.broadcast_to(np.asarray(wh, dtype=bool), r.shape)] = self._s
+        return r
+
+
+class garbage:
+    def __init__(self, sentinel, sizes=()):
+        self.s, self.sizes, self.saved = sentinel, sizes, {}
+
+    def __enter__(self):
+        s = self.s
+        for name, obj in list(vars(np).items()):
+            if isinstance(obj, np.ufunc):
+                self.saved[name] = obj
+                setattr(np, name, _UfuncProxy(obj, s))
+        oe, oel = np.empty, np.empty_like
+        self.saved["empty"], self.saved["empty_like"] = oe, oel
+
+        def empty(shape, dtype=float, *a, **k):
+            r = oe(shape, dtype, *a, **k)
+            if r.dtype.kind == "f":
+                r[...] = s
+            return r
+
+        def empty_like(p, dtype=None, *a, **k):
+            r = oel(p, dtype, *a, **k)
+            if isinstance(r, np.ndarray) and r.dtype.kind == "f":
+                r[...] = s
+            return r
+        np.empty, np.empty_like = empty, empty_like
+        poison(self.sizes, s)
+        return self
+
+    def __exit__(self, *exc):
+        for k, v in self.saved.items():
+            setattr(np, k, v)
+        return False
+
+
+def has_sentinel(result, s):
+    reg = Registry()
+    try:
+        for _, n in arrays_of(snapshot([("r", result)], reg)):
+            a = np.asarray(n.ref)
+            if a.dtype.kind == "f" and np.any(a == s):
+                return True
+    except Exception:  # noqa: BLE001
+        pass
+    return False
+
+
+# ==================================================================================
+# data factories
+# ==================================================================================
+def _grid(rng, m, i):
+    return np.linspace(0, 1, m) if i % 2 == 0 else np.sort(np.unique(np.concatenate([[0.0, 1.0], np.round(rng.uniform(0, 1, m - 2) * 64) / 64])))
+
+
+def make_dense1d(rng, n=6, m=11, zv=True, variant=0):
+    t = _grid(rng, m, variant)
+    m = len(t)
+    X = fd.smooth_curves(rng, n, t, rough=True) + 0.05 * rng.normal(size=(n, m))
+    if zv:
+        X[:, 0] = 1.25          # all curves coincide: zero variance
+        X[:, m // 2] = -0.5
+    return fd.dense(t, X)
+
+
+def make_dense2d(rng, n=5, m1=6, m2=5, zv=True):
+    X = rng.normal(size=(n, m1, m2))
+    if zv:
+        X[:, 0, 0] = 2.0
+        X[:, 3, 2] = 0.0
+    return fd.dense([np.linspace(0, 1, m1), np.linspace(0, 2, m2)], X)
+
+
+def make_irregular(rng, n=6, m=11, zv=False):
+    t = np.linspace(0, 1, m)
+    ts, xs = [], []
+    base = fd.smooth_curves(rng, n, t, rough=False)
+    for i in range(n):
+        ix = np.sort(rng.choice(m, size=int(rng.integers(m - 4, m)), replace=False))
+        ts.append(t[ix])
+        xs.append(np.full(len(ix), 2.0) if zv else base[i, ix] + 0.05 * rng.normal(size=len(ix)))
+    return fd.irregular(ts, xs)
+
+
+def make_basis(rng, n=6, given=True):
+    from FDApy.representation.basis import Basis
+    from FDApy.representation.argvals import DenseArgvals
+    from FDApy.representation.values import DenseValues
+    from FDApy.representation.functional_data import BasisFunctionalData
+    t = np.linspace(0, 1, 11)
+    if given:   # every basis function vanishes at t = 0: zero variance there, exactly
+        vals = np.array([t, t ** 2, np.sin(3 * t), t * (1 - t)])
+        b = Basis(name="given", argvals=DenseArgvals({"input_dim_0": t}), values=DenseValues(vals))
+        k = 4
+    else:
+        k = 5
+        b = Basis(name="fourier", n_functions=k, argvals=DenseArgvals({"input_dim_0": t}))
+    return BasisFunctionalData(basis=b, coefficients=rng.normal(size=(n, k)))
+
+
+def make_multi(rng, kind):
+    n = 6
+    a = make_dense1d(rng, n=n, m=11)
+    if kind == "multi-dd":
+        parts = [a, make_dense1d(rng, n=n, m=9, variant=1)]
+    elif kind == "multi-di":
+        parts = [a, make_irregular(rng, n=n, m=9)]
+    elif kind == "multi-d2":
+        parts = [a, make_dense2d(rng, n=n)]
+    else:
+        parts = [a, make_basis(rng, n=n, given=False)]
+    return fd.multivariate(parts)
+
+
+DATA_KINDS = ["dense1d", "dense1d-nonuniform", "dense2d", "irregular", "irregular-const", "basis-given", "basis-fourier",
+              "multi-dd", "multi-di", "multi-d2", "multi-db"]
+
+
+def make_data(kind, seed):
+    rng = np.random.default_rng([C.seed(), 16, seed, sum(map(ord, kind))])
+    if kind == "dense1d":
+        return make_dense1d(rng)
+    if kind == "dense1d-nonuniform":
+        return make_dense1d(rng, n=5, m=9, variant=1)
+    if kind == "dense2d":
+        return make_dense2d(rng)
+    if kind == "irregular":
+        return make_irregular(rng)
+    if kind == "irregular-const":
+        return make_irregular(rng, zv=True)
+    if kind == "basis-given":
+        return make_basis(rng, given=True)
+    if kind == "basis-fourier":
+        return make_basis(rng, given=False)
+    return make_multi(rng, kind)
+
+
+# ==================================================================================
+# method table
+# ==================================================================================
+def methods_for(kind, quick):
+    """list of (name, short, fn(obj, other) , uses_other).  `short` methods are used in pairs."""
+    is_multi = kind.startswith("multi")
+    is_basis = kind.startswith("basis")
+    is_irr = kind.startswith("irregular")
+    is_2d = kind == "dense2d"
+    one_d = kind.startswith("dense1d")
+    M = []
+
+    def add(name, fn, short=False, other=False):
+        M.append((name, short, fn, other))
+
+    add("mean()", lambda o, p: o.mean(), short=True)
+    if one_d or is_irr:
+        add("mean(method_smoothing='PS')", lambda o, p: o.mean(method_smoothing="PS"))
+        add("mean(method_smoothing='LP')", lambda o, p: o.mean(method_smoothing="LP"))
+    add("center()", lambda o, p: o.center(), short=True)
+    if not is_basis:
+        add("center(mean=precomputed)", lambda o, p: o.center(mean=p["mean"]), other="mean")
+    add("norm()", lambda o, p: o.norm(), short=True)
+    add("norm(squared=True,use_argvals_stand=True)", lambda o, p: o.norm(squared=True, use_argvals_stand=True))
+    add("normalize()", lambda o, p: o.normalize(), short=True)
+    add("standardize()", lambda o, p: o.standardize(), short=True)
+    add("standardize(center=False)", lambda o, p: o.standardize(center=False))
+    add("rescale()", lambda o, p: o.rescale(), short=True)
+    if not is_multi:
+        add("rescale(weights=2.0)", lambda o, p: o.rescale(weights=2.0))
+    add("inner_product()", lambda o, p: o.inner_product(), short=True)
+    if is_multi:
+        add("inner_product(noise_variance=zeros)", lambda o, p: o.inner_product(noise_variance=np.zeros(len(o.data))))
+    else:
+        add("inner_product(noise_variance=0)", lambda o, p: o.inner_product(noise_variance=0))
+    add("covariance()", lambda o, p: o.covariance(), short=True)
+    if one_d:
+        add("covariance(method_smoothing='LP')", lambda o, p: o.covariance(method_smoothing="LP"))
+    add("noise_variance()", lambda o, p: o.noise_variance(), short=True)
+    add("noise_variance(order=3)", lambda o, p: o.noise_variance(order=3))
+    if not is_2d and kind != "multi-d2":
+        add("smooth()", lambda o, p: o.smooth(), short=not is_irr or not quick)
+        add("smooth(method='PS',penalty=2.0)", lambda o, p: o.smooth(method="PS", penalty=2.0))
+    add("smooth(method='LP',bandwidth=0.3)", lambda o, p: o.smooth(method="LP", bandwidth=0.3), short=is_2d)
+    if one_d:
+        add("smooth(method='LP',bandwidth=50)", lambda o, p: o.smooth(method="LP", bandwidth=50.0))
+    add("to_long()", lambda o, p: o.to_long(), short=True)
+    if is_basis or is_multi:
+        add("to_grid()", lambda o, p: o.to_grid(), short=True)
+    if not is_basis and not is_2d and kind != "multi-d2":
+        add("to_basis()", lambda o, p: o.to_basis(), short=True)
+    add("concatenate(self,other)", lambda o, p: type(o).concatenate(o, p["other"]), short=True, other="other")
+    if not is_multi:
+        add("self+other", lambda o, p: o + p["other"], short=True, other="other")
+        add("self-other", lambda o, p: o - p["other"], other="other")
+        add("self*other", lambda o, p: o * p["other"], other="other")
+        add("self/other", lambda o, p: o / p["other"], other="other")
+        add("self*2.0", lambda o, p: o * 2.0, short=True)
+        add("2.0*self", lambda o, p: 2.0 * o)
+        add("self/2.0", lambda o, p: o / 2.0)
+        add("self//2.0", lambda o, p: o // 2.0)
+        add("self+1", lambda o, p: o + 1)
+        add("self-0.5", lambda o, p: o - 0.5)
+    return M
+
+
+def aux_for(kind, obj, seed, need):
+    """extra arguments: another object of the same kind / a precomputed mean.  They are inputs."""
+    if need == "other":
+        other = make_data(kind, seed)          # same sampling points, same sizes
+        if hasattr(other, "values") and isinstance(other.values, np.ndarray):
+            other.values[...] = other.values * 0.5 + 1.0
+        return {"other": other}
+    if need == "mean":
+        with warnings.catch_warnings():
+            warnings.simplefilter("ignore")
+            try:
+                m = make_data(kind, seed).mean()
+            except Exception:  # noqa: BLE001 - no default mean for this kind (e.g. irregular component): no such variant
+                return None
+        return {"mean": m}
+    return {}
+
+
+# ==================================================================================
+# scenarios
+# ==================================================================================
+class Scenario:
+    """one history of observed calls with its own registry; collects problems"""
+
+    def __init__(self, ctx, key):
+        self.ctx, self.key = ctx, key
+        self.reg = Registry()
+        self.records, self.problems = [], []
+
+    def observe(self, label, fn, inputs, prev=(), probe=True):
+        sub = Ctx(self.ctx.rep)
+        sub.reg = self.reg
+        st, res, problems, rec = observe(sub, label, fn, inputs, prev, probe=probe)
+        self.ctx.skipped_env += sub.skipped_env
+        self.ctx.n_calls += 1
+        for k, v in sub.alias_info.items():
+            self.ctx.alias_info[k] = self.ctx.alias_info.get(k, 0) + v
+        self.records.append(rec)
+        self.problems += problems
+        return st, res
+
+    def term(self):
+        """order-preserving renumbering of the locations, then the Coq term of the history"""
+        locs = set()
+        for r in self.records:
+            for k in ("args", "frozen", "writes", "fresh", "roots"):
+                locs.update(r[k])
+        order = sorted(locs)
+        rank = {l: i for i, l in enumerate(order)}
+        import bisect as _b
+
+        def nl(xs):
+            return "[" + "; ".join(str(rank[x]) for x in xs) + "]"
+        fz = sorted({x for r in self.records for x in r["frozen"]})
+        calls = []
+        for r in self.records:
+            wm = _b.bisect_left(order, r["next"])
+            calls.append(f"({wm}, obs_call {nl(r['args'])} {nl(r['writes'])} {nl(r['fresh'])} {nl(r['roots'])})")
+        return f"({nl(fz)}, [{'; '.join(calls)}])"
+
+
+def with_garbage(sentinel, sizes, fn):
+    def run():
+        with garbage(sentinel, sizes):
+            return fn()
+    return run
+
+
+def single_call(ctx, kind, seed, name, fn, need):
+    """call twice on the same objects (sentinels 1e300 / -7.25), snapshots around each call."""
+    obj = make_data(kind, seed)
+    aux = aux_for(kind, obj, seed + 1000, need) if need else {}
+    if aux is None:
+        return None, "skipped"
+    sc = Scenario(ctx, (kind, name))
+    inputs = [("self", obj)] + [(k, v) for k, v in aux.items()]
+    sizes = sizes_of(snapshot(inputs, Registry()))
+    label = f"{kind}.{name}"
+    st1, r1 = sc.observe(label, with_garbage(SENTINELS[0], sizes, lambda: fn(obj, aux)), inputs)
+    st2, r2 = sc.observe(label + " [repeat]", with_garbage(SENTINELS[1], sizes, lambda: fn(obj, aux)), inputs,
+                         prev=[("first result", r1)] if r1 is not None else [])
+    if st1 != st2:
+        sc.problems.append(("repeat", f"{label}: first call {st1}, repeated call {st2}"))
+    elif st1 == "ok" and result_bytes(r1) != result_bytes(r2):
+        with warnings.catch_warnings():
+            warnings.simplefilter("ignore")
+            try:
+                with garbage(SENTINELS[0], sizes):
+                    r3 = fn(obj, aux)
+                again = result_bytes(r3) == result_bytes(r1)
+            except Exception:  # noqa: BLE001
+                again = False
+        seen = has_sentinel(r1, SENTINELS[0]) or has_sentinel(r2, SENTINELS[1])
+        if again or seen:
+            sc.problems.append(("garbage", f"{label}: the result depends on uninitialised memory "
+                                           f"(differs between sentinels {SENTINELS[0]} and {SENTINELS[1]}"
+                                           f"{', sentinel visible in the result' if seen else ''})"))
+        else:
+            sc.problems.append(("repeat", f"{label}: repeating the call gives a different result"))
+    elif st1 == "ok" and (has_sentinel(r1, SENTINELS[0]) or has_sentinel(r2, SENTINELS[1])):
+        sc.problems.append(("garbage", f"{label}: a sentinel of the uninitialised memory is visible in the result"))
+    return sc, st1
+
+
+def pair_call(ctx, kind, seed, a, b, on_result):
+    """A; snapshot; B; compare inputs and A's result.  B runs on the input, or on A's result."""
+    (na, _, fa, needa), (nb, _, fb, needb) = a, b
+    obj = make_data(kind, seed)
+    auxa = aux_for(kind, obj, seed + 1000, needa) if needa else {}
+    auxb = aux_for(kind, obj, seed + 2000, needb) if needb else {}
+    if auxa is None or auxb is None:
+        return None
+    sc = Scenario(ctx, (kind, na, nb, on_result))
+    inputs = [("self", obj)] + [(f"A.{k}", v) for k, v in auxa.items()] + [(f"B.{k}", v) for k, v in auxb.items()]
+    la = f"{kind}.{na}"
+    st, ra = sc.observe(la, lambda: fa(obj, auxa), inputs, probe=False)
+    if st != "ok" or ra is None:
+        return None
+    target = obj
+    if on_result:
+        target = ra[0] if isinstance(ra, tuple) else ra
+        if type(target) is not type(obj):
+            return None
+    lb = f"{kind}.{na}; {'result' if on_result else 'self'}.{nb}"
+    sc.observe(lb, lambda: fb(target, auxb), inputs + ([("A result", ra)] if on_result else []),
+               prev=[("result of " + na, ra)], probe=False)
+    return sc
+
+
+# ==================================================================================
+# estimators
+# ==================================================================================
+def collect(est, names):
+    out = {}
+    for k in names:
+        try:
+            out[k] = getattr(est, k)
+        except Exception:  # noqa: BLE001
+            pass
+    return out
+
+
+class Seq:
+    """helper: a history of calls on one estimator, alternating sentinels, with refit / repeat checks"""
+
+    def __init__(self, ctx, key, inputs):
+        self.sc = Scenario(ctx, key)
+        self.inputs = list(inputs)
+        self.prev = []
+        self.i = 0
+        self.sizes = sizes_of(snapshot(self.inputs, Registry()))
+
+    def call(self, label, fn, extra_inputs=(), keep=True):
+        s = SENTINELS[self.i % 2]
+        self.i += 1
+        st, res = self.sc.observe(label, with_garbage(s, self.sizes, fn), self.inputs + list(extra_inputs), prev=self.prev)
+        if st == "ok" and res is not None:
+            if has_sentinel(res, s):
+                self.sc.problems.append(("garbage", f"{label}: a sentinel of the uninitialised memory is visible in the result"))
+            if keep:
+                self.prev.append((f"result of {label}", res))
+        return st, res
+
+    def same(self, what, a, b):
+        if a is None or b is None:
+            return
+        if result_bytes(a) != result_bytes(b):
+            self.sc.problems.append(("repeat", f"{what}: results differ bitwise"))
+
+
+def pen(m):
+    d = np.diff(np.identity(m))
+    return d @ d.T
+
+
+def est_ufpca(ctx, seed, method, normalize, ncomp, variant):
+    from FDApy.preprocessing.dim_reduction.ufpca import UFPCA
+    from FDApy.representation.argvals import DenseArgvals
+    kind = "dense1d" if variant != "2d" else "dense2d"
+    data = make_data(kind, seed)
+    est = UFPCA(method=method, n_components=ncomp, normalize=normalize)
+    kw = {}
+    cfg = []
+    if variant == "points":
+        pts = DenseArgvals({"input_dim_0": np.array(data.argvals["input_dim_0"], dtype=float).copy()})
+        kmean = {"penalty": 1.0}
+        kw = dict(points=pts, method_smoothing="PS", kwargs_mean=kmean)
+        cfg = [("points", pts), ("kwargs_mean", kmean)]
+    names = ["eigenvalues", "eigenfunctions", "mean", "covariance"]
+    q = Seq(ctx, ("UFPCA", method, normalize, ncomp, variant), [("data", data)] + cfg)
+    tag = f"UFPCA({method},n_components={ncomp},normalize={normalize},{variant})"
+
+    def fit():
+        est.fit(data, **kw)
+        return collect(est, names)
+    st, f1 = q.call(tag + ".fit", fit)
+    if st != "ok":
+        return q.sc
+    tm = ["NumInt", "PACE"] + (["InnPro"] if method == "inner-product" else [])
+    first = {}
+    for m in tm:
+        if m == "PACE" and kind == "dense2d":
+            continue
+        if m != "InnPro":
+            _, first[m] = q.call(f"{tag}.transform(data,{m})", lambda m=m: est.transform(data, method=m))
+        _, first[m + "/None"] = q.call(f"{tag}.transform(None,{m})", lambda m=m: est.transform(None, method=m))
+    sc0 = first.get("NumInt")
+    if sc0 is not None:
+        scores = np.array(sc0, dtype=float).copy()
+        _, inv1 = q.call(f"{tag}.inverse_transform", lambda: est.inverse_transform(scores), extra_inputs=[("scores", scores)])
+        _, inv2 = q.call(f"{tag}.inverse_transform [repeat]", lambda: est.inverse_transform(scores), extra_inputs=[("scores", scores)])
+        q.same(f"{tag}.inverse_transform repeated", inv1, inv2)
+    st, f2 = q.call(tag + ".fit [refit]", fit)
+    q.same(f"{tag}: refit on the same data", f1, f2)
+    for m, r in list(first.items()):
+        if r is None:
+            continue
+        if m.endswith("/None"):
+            _, r2 = q.call(f"{tag}.transform(None,{m[:-5]}) [after refit]", lambda m=m: est.transform(None, method=m[:-5]))
+        else:
+            _, r2 = q.call(f"{tag}.transform(data,{m}) [after refit]", lambda m=m: est.transform(data, method=m))
+        q.same(f"{tag}.transform({m}) repeated after refit", r, r2)
+    return q.sc
+
+
+def est_mfpca(ctx, seed, method, normalize, kind, uni):
+    from FDApy.preprocessing.dim_reduction.mfpca import MFPCA
+    data = make_data(kind, seed)
+    nfun = len(data.data)
+    if uni == "UFPCA":
+        ue = [{"method": "UFPCA", "n_components": 3} for _ in range(nfun)]
+    elif uni == "UFPCA-default":
+        ue = [{"method": "UFPCA"} for _ in range(nfun)]
+    else:
+        ue = [{"method": "PSplines", "n_components": 4, "penalty": 1.0} for _ in range(nfun)]
+    weights = None
+    est = MFPCA(n_components=2, method=method, univariate_expansions=ue, weights=weights, normalize=normalize)
+    names = ["eigenvalues", "eigenfunctions", "mean", "covariance"]
+    q = Seq(ctx, ("MFPCA", method, normalize, kind, uni), [("data", data), ("univariate_expansions", ue)])
+    tag = f"MFPCA({method},normalize={normalize},{kind},{uni})"
+
+    def fit():
+        est.fit(data)
+        return collect(est, names)
+    st, f1 = q.call(tag + ".fit", fit)
+    if st != "ok":
+        return q.sc
+    first = {}
+    for m in ["NumInt", "PACE"] + (["InnPro"] if method == "inner-product" else []):
+        if m != "InnPro":
+            _, first[m] = q.call(f"{tag}.transform(data,{m})", lambda m=m: est.transform(data, method=m))
+        _, first[m + "/None"] = q.call(f"{tag}.transform(None,{m})", lambda m=m: est.transform(None, method=m))
+    if first.get("NumInt") is not None:
+        scores = np.array(first["NumInt"], dtype=float).copy()
+        _, inv1 = q.call(f"{tag}.inverse_transform", lambda: est.inverse_transform(scores), extra_inputs=[("scores", scores)])
+        _, inv2 = q.call(f"{tag}.inverse_transform [repeat]", lambda: est.inverse_transform(scores), extra_inputs=[("scores", scores)])
+        q.same(f"{tag}.inverse_transform repeated", inv1, inv2)
+    st, f2 = q.call(tag + ".fit [refit]", fit)
+    q.same(f"{tag}: refit on the same data", f1, f2)
+    for m, r in list(first.items()):
+        if r is None or m.endswith("/None"):
+            continue
+        _, r2 = q.call(f"{tag}.transform(data,{m}) [after refit]", lambda m=m: est.transform(data, method=m))
+        q.same(f"{tag}.transform({m}) repeated after refit", r, r2)
+    return q.sc
+
+
+def est_fcptpa(ctx, seed, normalize, ncomp):
+    from FDApy.preprocessing.dim_reduction.fcp_tpa import FCPTPA
+    data = make_data("dense2d", seed)
+    m1, m2 = data.values.shape[1:]
+    pm = {"v": pen(m1), "w": pen(m2)}
+    ar = {"v": (1e-2, 1e2), "w": (1e-3, 1e3)}
+    est = FCPTPA(n_components=ncomp, normalize=normalize)
+    q = Seq(ctx, ("FCPTPA", normalize, ncomp), [("data", data), ("penalty_matrices", pm), ("alpha_range", ar)])
+    tag = f"FCPTPA(n_components={ncomp},normalize={normalize})"
+
+    def fit():
+        np.random.seed(1234)
+        est.fit(data, pm, ar, tolerance=1e-4, max_iteration=10, adapt_tolerance=True)
+        return collect(est, ["eigenvalues", "eigenfunctions"])
+    st, f1 = q.call(tag + ".fit", fit)
+    if st != "ok":
+        return q.sc
+    _, t1 = q.call(tag + ".transform(data,NumInt)", lambda: est.transform(data))
+    _, t2 = q.call(tag + ".transform(data,FCPTPA)", lambda: est.transform(data, method="FCPTPA"))
+    scores = np.array(t2, dtype=float).copy()
+    _, i1 = q.call(tag + ".inverse_transform", lambda: est.inverse_transform(scores), extra_inputs=[("scores", scores)])
+    st, f2 = q.call(tag + ".fit [refit, same seed]", fit)
+    q.same(f"{tag}: refit under the same global seed", f1, f2)
+    _, t1b = q.call(tag + ".transform(data,NumInt) [after refit]", lambda: est.transform(data))
+    _, t2b = q.call(tag + ".transform(data,FCPTPA) [after refit]", lambda: est.transform(data, method="FCPTPA"))
+    q.same(f"{tag}.transform(NumInt) repeated after refit", t1, t1b)
+    q.same(f"{tag}.transform(FCPTPA) repeated after refit", t2, t2b)
+    _, i2 = q.call(tag + ".inverse_transform [repeat]", lambda: est.inverse_transform(scores), extra_inputs=[("scores", scores)])
+    q.same(f"{tag}.inverse_transform repeated", i1, i2)
+    return q.sc
+
+
+def est_psplines(ctx, seed, dim, weighted):
+    from FDApy.preprocessing.smoothing.psplines import PSplines
+    rng = np.random.default_rng([C.seed(), 16, seed, 77])
+    if dim == 1:
+        x = np.linspace(0, 1, 15)
+        y = np.sin(4 * x) + 0.1 * rng.normal(size=15)
+        est = PSplines(n_segments=6, degree=3)
+        pen_ = 1.5
+        xn = np.linspace(0.1, 0.9, 7)
+        w = rng.uniform(0.5, 2, size=15) if weighted else None
+    else:
+        x = [np.linspace(0, 1, 7), np.linspace(0, 2, 6)]
+        y = rng.normal(size=(7, 6))
+        est = PSplines(n_segments=np.array([3, 3]), degree=np.array([2, 2]))
+        pen_ = (1.0, 2.0)
+        xn = [np.linspace(0.1, 0.9, 4), np.linspace(0.2, 1.8, 5)]
+        w = rng.uniform(0.5, 2, size=(7, 6)) if weighted else None
+    inputs = [("y", y), ("x", x), ("penalty", pen_), ("x_new", xn)] + ([("sample_weights", w)] if weighted else [])
+    q = Seq(ctx, ("PSplines", dim, weighted), inputs)
+    tag = f"PSplines(dim={dim},weighted={weighted})"
+
+    def fit():
+        est.fit(y, x, sample_weights=w, penalty=pen_)
+        return collect(est, ["y_hat", "beta_hat", "diagnostics"])
+    st, f1 = q.call(tag + ".fit", fit)
+    if st != "ok":
+        return q.sc
+    _, p1 = q.call(tag + ".predict()", lambda: est.predict())
+    _, p2 = q.call(tag + ".predict(x_new)", lambda: est.predict(xn))
+    st, f2 = q.call(tag + ".fit [refit]", fit)
+    q.same(f"{tag}: refit on the same data", f1, f2)
+    _, p1b = q.call(tag + ".predict() [after refit]", lambda: est.predict())
+    _, p2b = q.call(tag + ".predict(x_new) [after refit]", lambda: est.predict(xn))
+    q.same(f"{tag}.predict() repeated", p1, p1b)
+    q.same(f"{tag}.predict(x_new) repeated", p2, p2b)
+    return q.sc
+
+
+def est_lp(ctx, seed, kernel, degree, robust, dim):
+    from FDApy.preprocessing.smoothing.local_polynomial import LocalPolynomial
+    rng = np.random.default_rng([C.seed(), 16, seed, 78])
+    if dim == 1:
+        x = np.linspace(0, 1, 15)
+        y = np.cos(3 * x) + 0.1 * rng.normal(size=15)
+        xn = np.linspace(0.05, 0.95, 6)
+    else:
+        g = np.linspace(0, 1, 5)
+        x = np.array(np.meshgrid(g, g)).reshape(2, -1)
+        y = rng.normal(size=25)
+        xn = np.array(np.meshgrid(g[:3], g[:3])).reshape(2, -1)
+    est = LocalPolynomial(kernel_name=kernel, bandwidth=0.4, degree=degree, robust=robust)
+    q = Seq(ctx, ("LocalPolynomial", kernel, degree, robust, dim), [("y", y), ("x", x), ("x_new", xn)])
+    tag = f"LocalPolynomial({kernel},degree={degree},robust={robust},dim={dim})"
+    _, p1 = q.call(tag + ".predict(y,x)", lambda: est.predict(y, x))
+    _, p2 = q.call(tag + ".predict(y,x,x_new)", lambda: est.predict(y, x, xn))
+    _, p1b = q.call(tag + ".predict(y,x) [repeat]", lambda: est.predict(y, x))
+    _, p2b = q.call(tag + ".predict(y,x,x_new) [repeat]", lambda: est.predict(y, x, xn))
+    q.same(f"{tag}.predict(y,x) repeated", p1, p1b)
+    q.same(f"{tag}.predict(y,x,x_new) repeated", p2, p2b)
+    return q.sc
+
+
+def estimator_scenarios(ctx, quick):
+    out = []
+    for method in ("covariance", "inner-product"):
+        for normalize in (False, True):
+            for ncomp, variant in ((2, "plain"), (0.9, "plain"), (2, "points")) + (((2, "2d"),) if method == "inner-product" else ()):
+                out.append(("UFPCA", lambda m=method, nz=normalize, k=ncomp, v=variant: est_ufpca(ctx, 3, m, nz, k, v)))
+    for method in ("covariance", "inner-product"):
+        for normalize in (False, True):
+            for kind, uni in (("multi-dd", "UFPCA"), ("multi-dd", "UFPCA-default"), ("multi-dd", "PSplines"), ("multi-d2", "UFPCA")):
+                if kind == "multi-d2" and (method == "covariance" or quick):
+                    continue          # 2-D univariate expansions take ~30 s each: thorough tier only
+                out.append(("MFPCA", lambda m=method, nz=normalize, kd=kind, u=uni: est_mfpca(ctx, 5, m, nz, kd, u)))
+    for normalize in (False, True):
+        for ncomp in (1, 3):
+            out.append(("FCPTPA", lambda nz=normalize, k=ncomp: est_fcptpa(ctx, 7, nz, k)))
+    for dim in (1, 2):
+        for weighted in (False, True):
+            out.append(("PSplines", lambda d=dim, w=weighted: est_psplines(ctx, 9, d, w)))
+    for kernel in ("epanechnikov", "gaussian"):
+        for degree in (0, 1, 2):
+            for robust in (False, True):
+                out.append(("LocalPolynomial", lambda k=kernel, dg=degree, r=robust: est_lp(ctx, 11, k, dg, r, 1)))
+    out.append(("LocalPolynomial", lambda: est_lp(ctx, 11, "epanechnikov", 1, False, 2)))
+    return out
+
+
+# ==================================================================================
+# candidate findings (proposed ids; none is listed in known_findings.json, so Report.finish turns
+# each into a VIOLATION "unlisted finding ..." until it is repaired or listed).  A problem is
+# attributed to a candidate only if it has exactly that shape; anything else is a plain violation.
+# ==================================================================================
+CANDIDATES = {
+    "F-C16-basis-standardize-garbage":
+        "BasisFunctionalData.standardize: np.divide(fdata.basis.values, std, where=(std != 0)) has no out=: the basis values of the "
+        "result are uninitialised memory at zero-variance points (e.g. a 'given' basis whose functions all vanish at t=0)",
+    "F-C16-alias-basis-standardize-nocenter":
+        "BasisFunctionalData.standardize(center=False) returns an object whose coefficients array IS the input's coefficients array",
+    "F-C16-alias-irregular-concatenate":
+        "IrregularFunctionalData.concatenate(a, b) (and MultivariateFunctionalData.concatenate with an irregular component) puts the "
+        "inputs' own per-observation value arrays into the result",
+    "F-C16-alias-multivariate-passthrough":
+        "MultivariateFunctionalData.to_grid() / to_basis() return the input's own component objects for components that already "
+        "have the target representation (result[i] is data[i])",
+}
+
+
+def _last_call(msg):
+    return msg.split(": ")[0].split("; ")[-1]
+
+
+def classify(cat, msg):
+    last = _last_call(msg)
+    if cat == "garbage" and "standardize(" in last and ("basis-" in msg.split(": ")[0]):
+        return "F-C16-basis-standardize-garbage"
+    if cat == "alias-input":
+        if "standardize(center=False)" in last and "coefficients" in msg and "basis" not in msg.split("shares")[-1]:
+            return "F-C16-alias-basis-standardize-nocenter"
+        if "concatenate(self,other)" in last and "_values[" in msg and ("irregular" in msg.split(": ")[0] or "multi-di" in msg.split(": ")[0]):
+            return "F-C16-alias-irregular-concatenate"
+        if ("to_grid()" in last or "to_basis()" in last) and msg.split(": ")[0].startswith("multi"):
+            return "F-C16-alias-multivariate-passthrough"
+    return None
+
+
+def normalise(msg):
+    import re
+    head, _, tail = msg.partition(": ")
+    return _last_call(msg).replace(" [repeat]", "") + ": " + re.sub(r"\[[^\]]*\]", "[]", tail).split(" at ")[0]
+
+
+# ==================================================================================
+# driver
+# ==================================================================================
+def report(rep, ctx, scenarios):
+    """Coq verdict on the observed histories + direct monitors -> violations."""
+    run = C.CoqRun("C16", IMPORTS, shard=4)
+    batch = 25
+    groups = [scenarios[i:i + batch] for i in range(0, len(scenarios), batch)]
+    idx = [run.add("scenarios_ok [" + "; ".join(sc.term() for sc, _ in g) + "]%nat") for g in groups]
+    res = run.run()
+    seen = set()
+    for g, t in zip(groups, idx):
+        for sc, meta in g:
+            frame = [p for p in sc.problems if p[0] in ("write-input", "write-earlier-result", "alias-input")]
+            other = [p for p in sc.problems if p[0] not in ("write-input", "write-earlier-result", "alias-input")]
+            if not res[t] and not any(p[0] in ("write-input", "write-earlier-result", "alias-input")
+                                      for s2, _ in g for p in s2.problems):
+                # the model rejects a history on which the direct monitors saw nothing: evaluate alone
+                one = C.CoqRun("C16", IMPORTS)
+                j = one.add(f"scenario_report (fst {sc.term()}%nat) [] 0%nat (snd {sc.term()}%nat)")
+                out = one.run(kind="raw")[j]
+                if out.strip() not in ("[]", "nil"):
+                    rep.disagreements_checked += 1
+                    rep.violation(f"the heap model rejects the observed history {sc.key}: {out}", {**meta, "records": sc.records}, no_input=True)
+            for cat, msg in frame + other:
+                rep.disagreements_checked += 1
+                fid = classify(cat, msg)
+                if fid is not None:
+                    rep.known_finding(fid, CANDIDATES[fid], {**meta, "category": cat, "observed": msg})
+                    continue
+                key = (cat, normalise(msg))
+                if key in seen:
+                    continue
+                seen.add(key)
+                what = {"write-input": "input/configuration modified", "write-earlier-result": "earlier result modified",
+                        "alias-input": "result aliases mutable input state", "garbage": "uninitialised memory",
+                        "repeat": "not repeatable"}[cat]
+                rep.violation(f"{what}: {msg}", {**meta, "category": cat, "frame_condition_holds(Coq)": bool(res[t]) if not frame else False})
+    # consistency: a batch the model accepts must not contain frame problems seen by the monitors
+    for g, t in zip(groups, idx):
+        if res[t] and any(p[0] in ("write-input", "write-earlier-result", "alias-input") for s2, _ in g for p in s2.problems):
+            rep.violation("direct monitors saw a write/alias that the abstracted call records do not show (harness inconsistency)",
+                          {"scenarios": [repr(s2.key) for s2, _ in g]}, no_input=True)
+
+
+def data_scenarios(ctx, rep, quick):
+    scs = []
+    for kind in DATA_KINDS:
+        M = methods_for(kind, quick)
+        for name, short, fn, need in M:
+            try:
+                sc, st = single_call(ctx, kind, 1, name, fn, need)
+            except Exception as e:  # noqa: BLE001
+                rep.violation(f"harness could not observe {kind}.{name}: {type(e).__name__}: {e}", {"kind": kind, "method": name}, no_input=True)
+                continue
+            if sc is None:
+                continue
+            meta = {"scenario": "single", "kind": kind, "method": name, "seed": 1}
+            scs.append((sc, meta))
+            rep.case(("single", kind, name), nontrivial=(st == "ok"), kind=f"single/{kind.split('-')[0]}",
+                     sample={"scenario": "single call twice", "data": kind, "method": name, "status": st})
+        S = [m for m in M if m[1]]
+        if quick and kind in ("dense1d-nonuniform", "basis-fourier", "multi-d2", "irregular-const"):
+            continue          # pairs on the sibling kind of the same class cover these in the quick tier
+        for a in S:
+            for b in S:
+                for on_result in (False, True):
+                    if on_result and quick and (b[0] not in ON_RESULT_B or
+                                                (kind.startswith("irregular") and a[0] not in ("center()", "normalize()", "standardize()"))):
+                        continue
+                    try:
+                        sc = pair_call(ctx, kind, 2, a, b, on_result)
+                    except Exception as e:  # noqa: BLE001
+                        rep.violation(f"harness could not observe the pair {kind}.{a[0]};{b[0]}: {type(e).__name__}: {e}",
+                                      {"kind": kind, "A": a[0], "B": b[0]}, no_input=True)
+                        continue
+                    if sc is None:
+                        continue
+                    meta = {"scenario": "pair", "kind": kind, "A": a[0], "B": b[0], "B_on_result_of_A": on_result, "seed": 2}
+                    scs.append((sc, meta))
+                    rep.case(("pair", kind, a[0], b[0], on_result), kind=f"pair/{kind.split('-')[0]}",
+                             sample={"scenario": "A; snapshot; B", "data": kind, "A": a[0], "B": b[0], "B on A's result": on_result})
+    return scs
+
+
+def run(rep, props, replay=None):
+    quick = C.tier() == "quick"
+    ctx = Ctx(rep)
+    if replay is not None:
+        return replay_case(rep, ctx, replay)
+    rep.extra["poison_selftest_hits(of 5)"] = poison_selftest()
+    scs = data_scenarios(ctx, rep, quick)
+    for name, mk in estimator_scenarios(ctx, quick):
+        try:
+            sc = mk()
+        except Exception as e:  # noqa: BLE001
+            import traceback
+            rep.violation(f"harness could not run the {name} scenario: {type(e).__name__}: {e}",
+                          {"estimator": name, "traceback": traceback.format_exc()[-1500:]}, no_input=True)
+            continue
+        meta = {"scenario": "estimator", "key": [str(k) for k in sc.key]}
+        scs.append((sc, meta))
+        ok = sum(1 for r in sc.records if r["status"] == "ok")
+        rep.case(("estimator",) + tuple(map(str, sc.key)), nontrivial=ok > 0, kind=f"estimator/{name}",
+                 sample={"scenario": "estimator history", "key": [str(k) for k in sc.key], "calls": [r["label"] + " -> " + r["status"] for r in sc.records][:6]})
+    report(rep, ctx, scs)
+    rep.extra["observed_calls"] = ctx.n_calls
+    rep.extra["skipped_statsmodels"] = ctx.skipped_env
+    rep.extra["results_sharing_state_with_earlier_results(info)"] = ctx.alias_info
+    rep.extra["shared_frozen_locations(info)"] = sum(r.get("shared_frozen", 0) for sc, _ in scs for r in sc.records)
+    if ctx.skipped_env:
+        rep.notes.append(f"{ctx.skipped_env} calls raised ModuleNotFoundError(statsmodels): environment limitation, not counted")
+
+
+def replay_case(rep, ctx, rp):
+    quick = True
+    scs = []
+    if rp.get("scenario") == "single":
+        for name, short, fn, need in methods_for(rp["kind"], quick):
+            if name == rp["method"]:
+                sc, st = single_call(ctx, rp["kind"], rp.get("seed", 1), name, fn, need)
+                scs.append((sc, rp))
+    elif rp.get("scenario") == "pair":
+        M = {m[0]: m for m in methods_for(rp["kind"], quick)}
+        sc = pair_call(ctx, rp["kind"], rp.get("seed", 2), M[rp["A"]], M[rp["B"]], rp["B_on_result_of_A"])
+        if sc is not None:
+            scs.append((sc, rp))
+    elif rp.get("scenario") == "estimator":
+        for name, mk in estimator_scenarios(ctx, quick):
+            sc = None
+            try:
+                sc = mk()
+            except Exception:  # noqa: BLE001
+                continue
+            if [str(k) for k in sc.key] == rp.get("key"):
+                scs.append((sc, rp))
+                break
+    for sc, _ in scs:
+        rep.case(("replay", repr(sc.key)), sample={"replay": rp.get("what")})
+        for cat, msg in sc.problems:
+            print("replay:", cat, msg)
+    report(rep, ctx, [(sc, {k: v for k, v in m.items() if k not in ("what", "replay_cmd", "property")}) for sc, m in scs])
